@@ -12,7 +12,8 @@ RULE = ("random sequences of 3..12 file-system built-in calls over a tree of 7 p
         "model of the abstract file tree predicts every printed line and the error; the final real directory listing "
         "(paths, kinds, contents) is compared with the Lean model's final tree. _রিড-লাইন is exercised through the command "
         "line tool with piped stdin (LF, CRLF, trailing blanks, no final newline, empty input). "
-        "Non-trivial: the sequence contains a failing call or a directory operation.")
+        "Non-trivial: the sequence contains a failing call or a directory operation."
+        ' File contents with CR LF, lone CR, BOM, look-alike spellings; file and directory names outside ASCII, with a blank, case twins.')
 ASSUMPTIONS = ["the operating system's file system is modelled by an abstract tree (DESIGN §4 C20): agreement of that model "
                "with the real file system is established by this correspondence check, not by proof",
                "paths are absolute paths below the scratch root, written clean or with `name/..` detours, `.` components, "
@@ -23,9 +24,14 @@ def canon_listing(out):
 
 
 default_compare = lambda m, i: C.compare_run(m, i, line=True, extra=("fs",), canon=canon_listing)
-REL = ["a.txt", "b.txt", "d1", "d1/c.txt", "d1/d2", "d1/d2/e.txt", "d3/d4/f.txt"]
+REL = ["a.txt", "b.txt", "d1", "d1/c.txt", "d1/d2", "d1/d2/e.txt", "d3/d4/f.txt",
+       # names outside ASCII, with a blank, look-alike spellings, upper / lower case twins
+       "\u0996\u09be\u09a4\u09be.txt", "d1/\u09a8\u09cb\u099f \u09e7.txt", "\u09a4\u09a5\u09cd\u09af", "\u09a4\u09a5\u09cd\u09af/\u0995.txt",
+       "\u0986\u09df.txt", "\u0986\u09af\u09bc.txt", "A.txt"]
 CONTENTS = ["", "এক লাইন", "লাইন ১\nলাইন ২\n", "ascii text", "x" * 65536, "শেষে ফাঁকা  \n", "ট্যাব\tx",
-            "ক" * 3000, "a" + "খ" * 2731 + "\n", "পাখি ভাষা " * 7000]   # long non-ASCII text: multi-byte characters at every offset mod 8192
+            "ক" * 3000, "a" + "খ" * 2731 + "\n", "পাখি ভাষা " * 7000,   # long non-ASCII text: multi-byte characters at every offset mod 8192
+            # line-end conventions, BOM, look-alike spellings: a file holds the written text byte for byte
+            "\u0995\r\n\u0996\r\n", "\r\n", "\r", "\u0995\r\u0996\n\r", "\ufeff\u0995", "\u0986\u09df \u0986\u09af\u09bc \u200d\u200c.", " \n\n", "\u0995\n\n\n"]
 
 
 class Fs:
